@@ -340,3 +340,48 @@ Proof.
   split; [vm_compute; reflexivity|]. split; [repeat constructor|].
   split; vm_compute; reflexivity.
 Qed.
+
+(* the write half of c02_prompt: the guards are met and the poll after the write emits ST_DATA *)
+Lemma prompt_write_g_nonvacuous :
+  exists w cfg ops,
+    vconfig_ok cfg = true /\ 1 <= vc_max_retx cfg /\
+    match wtrace w cfg ops with
+    | [st0; st1; st2] =>
+        prompt_window cfg (c10_acc_next c10_acc0 st0) st0 st1 st2 && idle_seq_ok (fs_pre st1) &&
+        no_imm_ack (fs_pre st1) && can_send_new (fs_now st1) 528 (fs_pre st1) && emits_data st2
+    | _ => false
+    end = true /\
+    c02_prompt_write_g cfg (wtrace w cfg ops) = true.
+Proof.
+  exists 1056, s2_cfg, [VoPoll []; VoWrite (repeat 0 (Z.to_nat 528)); VoPoll []].
+  split; [vm_compute; reflexivity|]. split; [vm_compute; discriminate|].
+  split; vm_compute; reflexivity.
+Qed.
+
+(* c02_prompt is FALSE of the model for a configuration with max_segment_retransmissions = 0, which
+   vconfig_ok admits (the Rust option is a NonZeroUsize: not reachable in the implementation): the first
+   transmission of the first segment already reports ErrMaxRetransmissionsReached.  Hence the hypothesis
+   1 <= vc_max_retx of c02_prompt_write_g_every_trace. *)
+Definition retx0_cfg : vconfig :=
+  {| vc_incoming := false; vc_ipv4 := true; vc_link_mtu := 1500; vc_rx_buf := 1048576;
+     vc_tx_init := 32768; vc_tx_max := 1048576; vc_nagle := false; vc_max_retx := 0;
+     vc_inactivity := 10000000000; vc_wait_last_ack := true; vc_mtu_probe_max_retx := 1;
+     vc_isn := 100; vc_remote_seq := 1; vc_remote_conn_id := 7; vc_remote_wnd := 1048576;
+     vc_remote_ts := 5; vc_syn_sent := 0; vc_now0 := 1000000 |}.
+
+Lemma prompt_max_retx_zero_refuted :
+  exists w cfg ops,
+    vconfig_ok cfg = true /\ vc_max_retx cfg = 0 /\
+    c02_prompt cfg (wtrace w cfg ops) = false /\
+    match rev (wtrace w cfg ops) with
+    | st :: _ => match fs_result st with
+                 | FrPoll (PollReadyErr ErrMaxRetransmissionsReached) _ _ _ => True
+                 | _ => False
+                 end
+    | [] => False
+    end.
+Proof.
+  exists 1056, retx0_cfg, [VoPoll []; VoWrite (repeat 0 (Z.to_nat 528)); VoPoll []].
+  split; [vm_compute; reflexivity|]. split; [reflexivity|]. split; [vm_compute; reflexivity|].
+  vm_compute. exact I.
+Qed.
